@@ -27,6 +27,7 @@ def required(tier):
                 req.append('g%d.to_%s/%s' % (which, fm, rep))
             req.append('g%d.from_%s' % (which, fm))
         req += ['g%d.parity/even' % which, 'g%d.parity/odd' % which, 'g%d.rep-independent' % which]
+    req += ['g1.from_%s/directed' % fm for fm in FMTS]
     return req
 
 
@@ -81,6 +82,40 @@ def run(ctx, spec):
                 exp[i] = ('%s.from_%s' % (g, fmt), ('point', P), (which, 'dec', fmt, kk))
                 i = pr.emit('_', g + '.eq', d, regs[rng.randrange(3)][1])
                 exp[i] = ('%s.from_%s' % (g, fmt), 'bool true', (which, 'deceq', fmt, kk))
+    if which == 1:
+        # coordinate-directed points of G1 (cofactor 1: every curve point is in the group): x or y taken from the limb-boundary /
+        # near-q / Montgomery-targeted classes, so that range checks and comparisons inside the codecs see boundary coordinates
+        from .. import points
+        T = None
+        for _ in range(6):
+            v, vc = gen.field_value(rng, q)
+            if rng.random() < 0.6:
+                T = points.lift_x(1, v, want_even=rng.random() < 0.5)
+                what = 'x'
+            else:
+                x = rm.fq_cuberoot((v * v - 5) % q)
+                T = (x, v) if x is not None else None
+                what = 'y'
+            if T is not None:
+                break
+        if T is not None:
+            assert rm.oncurve(F1, T)
+            k1 = rng.randrange(1, r)
+            A = rm.gmul(1, k1)
+            B = rm.cadd(F1, T, rm.cneg(F1, A))
+            regs = [('aff', pr.let('g1.lit', rm.jac_lit(F1, T))[0]), ('scaled', pr.let('g1.lit', rm.jac_lit(F1, T, gen.lam_for(rng, 1)))[0])]
+            if B is not None:
+                regs.append(('jac', pr.let('g1.add', pr.let('g1.lit', rm.jac_lit(F1, A))[0], pr.let('g1.lit', rm.jac_lit(F1, B, gen.lam_for(rng, 1)))[0])[0]))
+            ctx.count('directed-coordinate:%s/%s' % (what, vc))
+            for fmt in FMTS:
+                want = encode(1, T, fmt)
+                for rep, reg in regs:
+                    i = pr.emit('_', 'g1.to_%s' % fmt, reg)
+                    exp[i] = ('g1.to_%s/%s' % (fmt, rep), 'bytes ' + want, (1, fmt, T[0], rep))
+                d, i = pr.let('g1.from_%s' % fmt, want)
+                exp[i] = ('g1.from_%s/directed' % fmt, ('point', T), (1, 'dec', fmt, T[0]))
+                i = pr.emit('_', 'g1.eq', d, regs[rng.randrange(len(regs))][1])
+                exp[i] = ('g1.from_%s/directed' % fmt, 'bool true', (1, 'deceq', fmt, T[0]))
     ans = ctx.run(pr.lines)
     regvals = {}
     for i, an in enumerate(ans):
